@@ -71,7 +71,8 @@ def default_scripts(rng, antiparallel=False):
 
 
 def gen_find_world(rng, max_atoms=48, max_copies=6, families=None, cell_families=None, allow_rotated=False,
-                   hints_prob=0.4, decoys=True, min_copies=0, atols=None, noise=True, pattern=None):
+                   hints_prob=0.4, decoys=True, min_copies=0, atols=None, noise=True, pattern=None, width_mult=1.0,
+                   no_tight=False):
     """A periodic structure with planted copies of a pattern (+ decoys).  Returns a JSON-able spec."""
     family = rng.choice(families or geom.PATTERN_FAMILIES)
     if pattern is None:
@@ -92,9 +93,9 @@ def gen_find_world(rng, max_atoms=48, max_copies=6, families=None, cell_families
     hints = pick_hints(rng, P, hints_prob)
     K = geom.amplification_K(P, hints)
     eps_max = atol / (2.0 * K)
-    min_width = max(D + 2 * atol, 2.2)
+    min_width = max(D + 2 * atol, 2.2) * width_mult
     cfam = rng.choice(cell_families or geom.CELL_FAMILIES)
-    ntight = rng.choice([0, 0, 1, 1, 2, 3])
+    ntight = 0 if no_tight else rng.choice([0, 0, 1, 1, 2, 3])
     tight_axes = rng.sample(range(3), ntight)
     cell = geom.make_cell(rng, cfam, min_width, tight_axes, allow_rotated=allow_rotated)
 
